@@ -55,6 +55,10 @@ func (t Tokens) StoreToFile(tokenFilePath string) error {
 		_ = f.Close()
 	}()
 
+	if err := verifFailpoint("tokens.store.created"); err != nil {
+		return err
+	}
+
 	b, err := t.Marshal()
 	if err != nil {
 		return err
@@ -63,7 +67,13 @@ func (t Tokens) StoreToFile(tokenFilePath string) error {
 		return err
 	}
 
+	if err := verifFailpoint("tokens.store.written"); err != nil {
+		return err
+	}
 	if err := f.Close(); err != nil {
+		return err
+	}
+	if err := verifFailpoint("tokens.store.closed"); err != nil {
 		return err
 	}
 
